@@ -648,6 +648,47 @@ def verify(contract, timeout_ms=20000, case_filter=None, mutate=None, verbose=Fa
                     rep.infeasible_paths = getattr(rep, 'infeasible_paths', 0) + 1
                     lab_ = 'return' if p.outcome == 'return' and p.value.kind == 'return' else 'raise:' + p.value.exc.cls.name
                     outcomes_infeasible[lab_] = outcomes_infeasible.get(lab_, 0) + 1
+        # engine-vs-CPython cross-check (tier thorough): concrete inputs drawn from the path conditions of sampled paths; the
+        # runner replays them on the real code and compares the outcome (return / exception class) with the path's
+        n_x = int(os.environ.get('PYVC_CROSSCHECK', '0') or 0)
+        if n_x and hasattr(contract, 'witness'):
+            per_label = {}
+            for pi, p in enumerate(paths):
+                if p.outcome == 'abort':
+                    continue
+                lab = 'return' if p.outcome == 'return' and p.value.kind == 'return' else 'raise:' + p.value.exc.cls.name
+                if per_label.get(lab, 0) >= n_x:
+                    continue
+                hyps = p.obligations[-1].hyps if p.obligations else p.pc
+                sx = z3.Solver()
+                sx.set('timeout', 2500)
+                for h in hyps:
+                    sx.add(h)
+                hints = contract.small_hints(case, getattr(p, 'aux', None) or aux_box.get('aux')) if hasattr(contract, 'small_hints') else ()
+                model = None
+                t1 = time.time()
+                for h in list(hints) + [None]:
+                    sx.push()
+                    if h is not None:
+                        sx.add(h)
+                    if sx.check() == z3.sat:
+                        model = sx.model()
+                        sx.pop()
+                        break
+                    sx.pop()
+                rep.solver_s += time.time() - t1
+                rep.cross_tried = getattr(rep, 'cross_tried', 0) + 1
+                if model is None:
+                    continue
+                try:
+                    w = contract.witness(model, case, getattr(p, 'aux', None) or aux_box.get('aux'))
+                except Exception:
+                    continue
+                if not w:
+                    continue
+                per_label[lab] = per_label.get(lab, 0) + 1
+                rep.cross = getattr(rep, 'cross', []) + [{'case': label, 'path': pi, 'outcome': lab, 'witness': w,
+                                                            'lib': sorted(a for a in p.axioms_used if a.startswith('A-LIB') or a.startswith('numpy') or a.startswith('contract:'))[:6]}]
         rep.paths += n_live
         rep.cases.append({'label': label, 'paths': n_live, 'outcomes': outcomes})
         for want in contract.expected_outcomes(case):
